@@ -117,9 +117,12 @@ def check_case(case):
         e = case["expr"]
         validate_expr(e)
         try:
-            exp = pddl.ev(e, ENV, st)
+            exp, mag = pddl.ev_mag(e, ENV, st)
         except pddl.Undefined:
             res.skipped = "division-by-zero"
+            return res
+        if pddl.float_unsafe(exp, mag):
+            res.skipped = "cancellation-beyond-float-precision"     # the exact value is not reproducible in doubles
             return res
         res.nontrivial = nontrivial_tree(e)
         info = {"expr": e, "vals": case.get("vals"), "expected": float(exp)}
@@ -161,7 +164,8 @@ def check_case(case):
                 res.bad("C12/action/value-depends-on-an-earlier-evaluation",
                         {**info, "missing_fluent": list(used[0]), "used_operator": repr(r_used[1])[:80], "fresh_operator": repr(r_fresh[1])[:80]})
         lo, hi = pddl.fmt_value(F(float(exp) - 0.5)), pddl.fmt_value(F(float(exp) + 0.5))
-        for cond, want in ((["and", [">=", e, lo]], True), (["and", ["<", e, lo]], False), (["and", ["<=", e, hi]], True), (["and", [">", e, hi]], False)):
+        # (half a unit must be far above the float resolution at this magnitude for the four comparisons to be decidable)
+        for cond, want in () if abs(exp) > 10 ** 9 else ((["and", [">=", e, lo]], True), (["and", ["<", e, lo]], False), (["and", ["<=", e, hi]], True), (["and", [">", e, hi]], False)):
             okd, d3 = parse_domain(action_domain(cond, ["and", ["r"]]))
             if not okd:
                 res.bad(f"C12/action/parse-exception:{d3.key}", {**info, "cond": cond, "error": repr(d3)})
